@@ -2,9 +2,11 @@
 
  1 translate   parser.y / lexer.l / keywords.cpp -> lean/UtapModel/Gen/ExprGrammar.lean            (tie T)
  2 prove       UtapModel.Props.C02: round trips parse(render_min t) = t, parse(render_full t) = t, redundant
-               parentheses, aliases, unary plus, imply, integer literals; generated table = reference table
+               parentheses, aliases, unary plus, imply, integer literals, comma lists nest to the left; generated table =
+               reference table
  3 correspond  Lean parser model (generated table) vs the real parser on: every operator pair / triple, random trees
-               rendered minimally / fully, mutated token strings, literal boundary values                (tie C)
+               rendered minimally / fully, mutated token strings, literal boundary values; comma lists of one to eight
+               elements through S_EXPRESSION_LIST and in every place of the grammar that takes a list          (tie C)
  4 search      whenever model and implementation disagree, or a theorem/translation breaks, the *reference* table
                (Spec/OperatorTable.lean, not derived from parser.y) decides: a text whose real tree differs from the
                reference parse is the replay
@@ -473,6 +475,53 @@ def run(ctx):
                             {"entry": "parse_XTA(whole model) with the expression as " + c, "context": c, "text": t, "observed": h,
                              "expected": canon_model(m)})
     cov["contexts"] = ctx_count
+    # comma lists (`ExprList`): one, two, three and more elements, through the entry point S_EXPRESSION_LIST and in every place of the
+    # grammar that takes a list.  The NESTING of the COMMA nodes is part of the tree (the printed text and the type checker cannot
+    # tell a left-nested list from a right-nested one, a client walking the tree can), and it only shows from three elements on.
+    LIST_CTX = ["list-update", "list-for-init", "list-for-cond", "list-for-step", "list-while", "list-do-while", "list-if", "list-before",
+                "list-after", "list-xml-assignment"]
+    elems = [t for (o, t, k), m in zip(texts, pm) if o in ("pair", "min") and m != "REJECT" and len(t.split()) <= 12]
+    lists = [["a = 1", "b = 2", "c = 3"], ["a", "b", "c", "d"], ["a = 1", "b = 2"], ["a"], ["f2 ( a , b )", "c", "arr [ a ]"],
+             ["a ? b : c", "d = e", "i ++"], ["f1 ( a )", "c"]] if elems else []
+    for _ in range((1500 if not ctx.thorough else 20000) if elems else 0):
+        lists.append([ctx.rng.choice(elems) for _ in range(ctx.rng.choice([1, 2, 3, 3, 3, 4, 4, 5, 6, 8]))])
+    ltexts = [" , ".join(l) for l in lists]
+    lbad = ["a ,", ", a", "a , , b", "a , b ,", ","]          # not lists: rejected by both sides
+    rcl, lm, el = run_lines(drv, ["C\t" + t for t in ltexts + lbad])
+    rcd, ls, ed = run_lines(drv, ["D\t" + t for t in ltexts + lbad])
+    rce, lh, ee = run_lines(har, ["E\t" + t for t in ltexts + lbad])
+    lctx = [(LIST_CTX[i % len(LIST_CTX)], t) for i, t in enumerate(ltexts)]
+    rcx, lx, ex = run_lines(har_fast, ["X\t%s\t%s" % (c, t) for c, t in lctx])
+    list_count, dis_list = {}, []
+    if rcl != 0 or rcd != 0 or len(lm) != len(ltexts) + len(lbad) or len(ls) != len(lm):
+        ctx.proof_broken("drv_c02", (el + ed)[-2000:], "driver crashed on C/D commands")
+    elif rce != 0 or len(lh) != len(lm) or rcx != 0 or len(lx) != len(lctx):
+        ctx.finding("crash:parse_expression_list", "the real parser died on a comma list", {"stderr": (ee + ex)[-3000:]})
+    else:
+        rows = [("expression-list", t, m, s_, h) for t, m, s_, h in zip(ltexts + lbad, lm, ls, lh)] + \
+               [(c, t, m, s_, h) for (c, t), m, s_, h in zip(lctx, lm, ls, lx)]
+        for c, t, m, s_, h in rows:
+            r = same(s_, h)
+            if r is None:
+                continue
+            list_count[c] = list_count.get(c, 0) + 1
+            n_cmp += 1
+            if not r:
+                dis_list.append((c, t, s_, h))
+            if same(m, h) is False:
+                dis_model.append((c, t, m, h))
+        seen = set()
+        for c, t, s_, h in sorted(dis_list, key=lambda d: (len(d[1].split()), d[1])):      # smallest lists first: the minimal replays
+            key = "comma-list:%s:%d-elements" % (c, t.count(" , ") + 1 if h.startswith("(") else 0)
+            if c in seen or len(seen) >= 6:
+                continue
+            seen.add(c)
+            ctx.finding(key, "comma list %r (%s): the client receives %s, the operator table prescribes %s" % (t, c, h[:300], canon_model(s_)[:300]),
+                        {"entry": "parse_XTA(text, builder, newxta=true, S_EXPRESSION_LIST)" if c == "expression-list" else
+                         "whole model with the list as " + c, "list_context": c, "text": t, "observed": h,
+                         "expected_by_reference_table": canon_model(s_)})
+    cov["comma_lists"] = {"by_context": list_count, "by_length": {n: sum(1 for l in lists if len(l) == n) for n in sorted({len(l) for l in lists})},
+                          "disagreements_with_reference": len(dis_list)}
     # builtin functions: every name of the reference table builds the kind the table gives it ---------------------------------------
     spec_src = open(os.path.join(core.LEAN_DIR, "UtapModel", "Spec", "OperatorTable.lean")).read()
     btab = re.findall(r'\("([a-z0-9_]+)", "([A-Z0-9_]+_F)", (\d)\)', spec_src[spec_src.index("def builtinSpec"):])
@@ -579,7 +628,7 @@ def run(ctx):
     for kind, x, want, h in lit_bad[:8]:
         ctx.finding("literal:%s:%s" % (kind, x if len(x) < 30 else x[:30]), "literal %s: expected %s, real parser gives %s" % (x, want, h[:200]),
                     {"text": x, "expected": want, "observed": h})
-    unexplained = [d for d in dis_model if not any(d[1] == s[1] for s in dis_spec)]
+    unexplained = [d for d in dis_model if not any(d[1] == s[1] for s in dis_spec + dis_list)]
     if unexplained:
         ctx.proof_broken("correspondence:generated-table-model",
                          "model (generated table) and implementation disagree on %d texts where the reference table agrees with the "
@@ -628,12 +677,13 @@ def shape_key(text):
 def replay(ctx, path):
     r = json.load(open(path))
     text = r["replay"].get("text")
-    print("replaying:", text)
+    lc = r["replay"].get("list_context")
+    print("replaying:", text, "(comma list, %s)" % lc if lc else "")
     b = core.build_repo("asan")
     har = core.build_harness(b, "c02", ["c02.cpp"])
     core.lake_build(["drv_c02"])
-    _, h, _ = run_lines(har, ["P\t" + text])
-    _, s, _ = run_lines(core.lean_exe("drv_c02"), ["S\t" + text])
+    _, h, _ = run_lines(har, [("E\t" + text if lc == "expression-list" else "X\t%s\t%s" % (lc, text)) if lc else "P\t" + text])
+    _, s, _ = run_lines(core.lean_exe("drv_c02"), [("D\t" if lc else "S\t") + text])
     print("implementation:", h[0] if h else "?")
     print("reference     :", canon_model(s[0]) if s else "?")
     return 0 if h and s and same(s[0], h[0]) is not False else 1
